@@ -23,6 +23,8 @@ var (
 	vpCbLog     []string // "cookie:<arg>", "client:<arg>", "host:<arg>" in call order
 	vpCbRes     []bool
 	vpHostArg   string
+	vpHostArgs  []string // every host the policy was asked about, in order
+	vpHostVerdictAt []int // index into vpCbRes of the verdict for vpHostArgs[i]
 	vpCookieArg string
 )
 
@@ -44,6 +46,7 @@ func vpResetC01() {
 	vpCbLog = nil
 	vpCbRes = nil
 	vpHostArg = ""
+	vpHostArgs, vpHostVerdictAt = nil, nil
 	vpCookieArg = ""
 }
 
@@ -80,6 +83,8 @@ func vpCallback(kind string) func(context.Context, string) (bool, error) {
 		vpCbLog = append(vpCbLog, kind)
 		if kind == "host" {
 			vpHostArg = s
+			vpHostArgs = append(vpHostArgs, s)
+			vpHostVerdictAt = append(vpHostVerdictAt, len(vpCbRes))
 			if vpStepTunnel != nil {
 				// what a policy that reads the tunnel (security.CheckSession) sees at this moment
 				vpSeenTarget, vpSeenAddr = vpStepTunnel.TargetServer, vpStepTunnel.RemoteAddr
@@ -195,6 +200,11 @@ func VP_C01_step() {
 	vpAssume(vpImplies(pt == 6, vpLE16(body, 0) <= lim))
 	vpAssume(vpImplies(pt == 8, vpLE16(body, 6) <= lim))
 	vpAssume(vpImplies(pt == 4, vpLE16(body, 8) <= lim))
+	if len(body) > 1 {
+		// a channel request announces at most two alternate resource names (allocation bound; the names
+		// themselves are the subject of VP_C03_channel_alternates)
+		vpAssume(vpImplies(pt == 8, body[1] <= 2))
+	}
 	// client-name content is irrelevant to this property: beyond the first UTF-16 unit assume ASCII
 	// (the decoder forks 4 ways per unit; arbitrary content is covered by VP_C10_parsers)
 	for i := 4; i+1 < len(body); i += 2 {
